@@ -323,10 +323,11 @@ def build_bases(b, env, outdir, tier, seed, want=None):
         jmap = im.journal_map()
         free = [x for x in im.free_blocks(0) if x not in set(jmap)]
         tb = {1: free[10], 2: free[11], 3: free[40], 4: free[-5]}
-        for k in range(njrn):
+        ks = list(range(njrn))
+        if want is not None:      # replay / regression inputs may name a journal beyond this tier's range
+            ks = sorted(set(int(w.split(":")[2]) for w in want if w.startswith("jrn:%s:" % prof) and w.count(":") == 2))
+        for k in ks:
             bid = "jrn:%s:%d" % (prof, k)
-            if want is not None and bid not in want:
-                continue
             rng = random.Random(seed * 1000003 + k)
             j = S.sample(rng, k)
             dst = os.path.join(outdir, "jrn_%s_%d.img" % (prof, k))
